@@ -575,3 +575,14 @@ func RandBytes(r *rand.Rand, n int) []byte {
 	r.Read(b)
 	return b
 }
+
+// Crash records a panic that escaped from a generator (library code reached
+// outside a recover) as a case of its own, so that the run ends with a violation
+// and a replay file instead of a crashed check.
+func (c *Ctx) Crash(msg string) {
+	if len(msg) > 1500 {
+		msg = msg[:1500]
+	}
+	c.Add(&Case{Class: "crash", Desc: "a panic escaped while cases were being generated", SkipModel: true, Impl: Ls(),
+		GT: "a panic escaped from library code while cases were being generated (the cases after this one did not run): " + strings.Join(strings.Fields(msg), " "), NonTrivial: true})
+}
